@@ -1,4 +1,4 @@
-CONSTANTS N = 3 W <- W211 None <- NoneV MaxSeq = 3 MaxEv = 8 Forkers <- F3 HeadsOnly = TRUE LazyFrames = FALSE MaxOthers = 2
+CONSTANTS N = 3 W <- W211 None <- NoneV Rule <- StdRule MaxSeq = 3 MaxEv = 8 Forkers <- F3 HeadsOnly = TRUE LazyFrames = FALSE MaxOthers = 2
 SPECIFICATION Spec
 INVARIANTS AtroposIsRoot NoDoubleConfirm CheatersExact EmitState
 PROPERTY BlocksAppendOnly
